@@ -231,11 +231,22 @@ class H5Group:
             # del self.group
             self.group = None
 
-    def delete_all(self, eid):
+    def delete_all(self, eid, targets=None):
         """
         Deletes all references to a given list of objects, identified by their
         entity_id, below the current object.
+        If the backend objects themselves are given too (targets), only links
+        to these very objects are deleted: another entity that carries the
+        same id (an id-keeping copy) is not touched.
         """
+        def h5obj(backend):
+            if isinstance(backend, H5Group):
+                return backend.group
+            return backend.dataset
+
+        if targets is not None:
+            targets = [h5obj(target) for target in targets]
+
         # Use visit_items to traverse groups and check their children.
         # visit_items visits each item only once, so instead of checking
         # whether each item is the one we're searching for, we check whether
@@ -250,6 +261,8 @@ class H5Group:
             grp = self.create_from_h5obj(obj)
             for child in grp:
                 if child.get_attr("entity_id") in eid:
+                    if targets is not None and h5obj(child) not in targets:
+                        continue
                     del grp[child.name]
 
         self._group.visititems(delete_by_id)
